@@ -87,7 +87,13 @@ func (f *formatValidator) Validate(val interface{}) *Result {
 		result = new(Result)
 	}
 
-	if err := FormatOf(f.Path, f.In, f.Format, val.(string), f.KnownFormats); err != nil {
+	str, isString := val.(string)
+	if !isString {
+		// a value of string kind which is not a JSON string (e.g. json.Number): format does not apply
+		return result
+	}
+
+	if err := FormatOf(f.Path, f.In, f.Format, str, f.KnownFormats); err != nil {
 		result.AddErrors(err)
 	}
 
